@@ -59,6 +59,16 @@ def gen_tree(rnd, maxents=8, sizes=(0, 1, 2, 10, 10, 300), depth_bias=0.5):
                               "../rootx", "s2/..", "/", "../" * 12 + BASE + "/outer/secret5.txt", "../" * 6 + "x", "a:b", "x:/a.txt",
                               "./a.txt", "sub/../a.txt"])
             t.ents.append(("L", p, tgt))
+    if rnd.random() < 0.1:
+        # links whose own path holds several non-ASCII characters (byte length and character count differ), to files next to them
+        d = "outer/root/" + rnd.choice(["каталог", "docs-é", "日本語", "a b/ü"])
+        for q in [d.rsplit("/", 1)[0], d]:
+            par = q.rsplit("/", 1)[0]
+            if q != "outer/root" and not t.has(q) and q not in t.dirs and par in t.dirs: t.ents.append(("D", q)); t.dirs.append(q)
+        if d in t.dirs:
+            if not t.has(d + "/data.txt"): t.ents.append(("F", d + "/data.txt", b"data-next-to-the-link"))
+            for ln in ["link.txt", "résumé.html", "ссылка"]:
+                if rnd.random() < 0.6 and not t.has(d + "/" + ln): t.ents.append(("L", d + "/" + ln, rnd.choice(["data.txt", "./data.txt"])))
     if rnd.random() < 0.12 and (not t.has("outer/root/sub") or "outer/root/sub" in t.dirs):
         # a link in a subdirectory that climbs one level and stays inside the root: resolved from the wrong base (the root instead of the
         # link's own directory) it would name the marked file one level above the root
